@@ -12,5 +12,6 @@ for id in "$@"; do
     cp $src/demo_$ab.cpp $d/demo.cpp 2>/dev/null
     for f in $src/*.hpp $src/*.h; do [ -e "$f" ] && cp "$f" $d/; done
     cp $src/NOTES.md $d/NOTES.md
+    [ -f $src/np_$ab ] && cp $src/np_$ab $d/np
   done
 done
